@@ -4,7 +4,7 @@
    to /repo by the correspondence check on every run). *)
 From Coq Require Import List ZArith Lia Bool.
 From RecordUpdate Require Import RecordSet.
-From Sim Require Import Map Variant Current Kernel Queue Net Pcap SimState Sim RegistryProofs SockProofs QueueProofs.
+From Sim Require Import Map Variant Current Kernel Queue Net Pcap SimState Sim RegistryProofs SockProofs QueueProofs RxProofs TxProofs.
 Import ListNotations.
 Import RecordSetNotations.
 Local Open Scope Z_scope.
@@ -55,3 +55,47 @@ Theorem C20_repairs_in_place :
 Proof. reflexivity. Qed.
 Print Assumptions C20_repairs_in_place.
 
+
+(* ---- sender, over a whole write (Proofs/TxProofs.v) ---- *)
+Theorem C20_write_loop_is_its_instrumented_twin :
+  forall cx s hops fuel bufs ret w,
+  write_loop cx fuel s hops bufs ret w =
+  (let '(r, w', c, _) := write_loop_g cx fuel s hops bufs ret w in (r, w', c)).
+Proof. exact write_loop_g_erase. Qed.
+Print Assumptions C20_write_loop_is_its_instrumented_twin.
+
+Theorem C20_segments_of_a_write_are_consecutive_slices_of_at_most_one_mss :
+  forall cx s,
+  (forall p w, t_mss (get_tcp (fst (tcp_send_packet cx s p w)) s) = t_mss (get_tcp w s)) ->
+  (forall p w, t_next_out (get_tcp (fst (tcp_send_packet cx s p w)) s) = t_next_out (get_tcp w s)) ->
+  forall hops mss, 0 < mss -> forall fuel bufs ret w,
+  t_mss (get_tcp w s) = mss ->
+  let '(r, w', c, ps) := write_loop_g cx fuel s hops bufs ret w in
+  exists n : nat,
+    r = ret + Z.of_nat n /\
+    concat (map p_buf ps) = firstn n (concat bufs) /\
+    Forall (seg_ok mss) ps /\
+    map p_seq ps = zcount (t_next_out (get_tcp w s)) (length ps) /\
+    t_mss (get_tcp w' s) = mss /\
+    t_next_out (get_tcp w' s) = t_next_out (get_tcp w s) + Z.of_nat (length ps).
+Proof. exact write_loop_segments. Qed.
+Print Assumptions C20_segments_of_a_write_are_consecutive_slices_of_at_most_one_mss.
+
+Theorem C20_the_loop_never_runs_out_of_fuel :
+  forall cx s,
+  (forall p w, t_mss (get_tcp (fst (tcp_send_packet cx s p w)) s) = t_mss (get_tcp w s)) ->
+  forall hops mss, 0 < mss -> forall f1 f2 bufs ret w,
+  t_mss (get_tcp w s) = mss ->
+  (length (concat bufs) + length bufs < f1)%nat -> (length (concat bufs) + length bufs < f2)%nat ->
+  write_loop_g cx f1 s hops bufs ret w = write_loop_g cx f2 s hops bufs ret w.
+Proof. exact write_loop_fuel_irrelevant. Qed.
+Print Assumptions C20_the_loop_never_runs_out_of_fuel.
+
+Theorem C20_send_packet_frames_if_forwarding_does :
+  forall cx s,
+  (forall p w, t_mss (get_tcp (fst (cfwd cx p w)) s) = t_mss (get_tcp w s) /\
+               t_next_out (get_tcp (fst (cfwd cx p w)) s) = t_next_out (get_tcp w s)) ->
+  forall p w, t_mss (get_tcp (fst (tcp_send_packet cx s p w)) s) = t_mss (get_tcp w s) /\
+              t_next_out (get_tcp (fst (tcp_send_packet cx s p w)) s) = t_next_out (get_tcp w s).
+Proof. exact send_packet_frames. Qed.
+Print Assumptions C20_send_packet_frames_if_forwarding_does.
